@@ -44,10 +44,11 @@ def run(chk, scratch):
                         ("Parallelise", "Parallelise.cfg"), ("CancelStore", "CancelStore.cfg")):
         common.model_check(chk, scratch, SPEC, module, cfg, "%s (%s)" % (module, cfg), workers=4, fast="tiny")
     # model sensitivity: the pre-repair designs must fail (unbuffered stop channel; result channel smaller than the fan-out)
-    for module, cfg, want in (("TimeoutRunner", "TimeoutRunner_unbuffered.cfg", "Deadlock"), ("Parallelise", "Parallelise_smallchan.cfg", "Deadlock")):
+    for module, cfg, want in (("TimeoutRunner", "TimeoutRunner_unbuffered.cfg", "Deadlock"), ("Parallelise", "Parallelise_smallchan.cfg", "Deadlock"),
+                              ("CtxRunner", "CtxRunner_storeonly.cfg", "StoreCancelReported")):
         r = vlib.run_tlc(scratch, [SPEC], module, cfg, workers=2, timeout=300, fast="tiny")
         vlib.tlc_must_pass(r, cfg)
-        chk.add_tlc("%s sensitivity (%s must deadlock)" % (module, cfg), r)
+        chk.add_tlc("%s sensitivity (%s must violate %s)" % (module, cfg, want), r)
         if r.violated != want:
             raise vlib.Inconclusive("sensitivity self-test failed: %s reported %s" % (cfg, r.violated))
     # 1b. the cancel store's safety for executions of ANY length: an inductive invariant discharged by Apalache (initiation, consecution,
